@@ -22,6 +22,11 @@ pub enum Assembly {
     ErrMsg,
     /// column definition with a huge column name
     ColName,
+    /// a text row of 3 columns of which only the first `written` (1 or 2) cells are written with
+    /// write_col (their encoded sizes sum to the target) before the shim gives up with
+    /// finish_error: whatever the library does with the abandoned row, the client must not be
+    /// handed a message the server never meant to send
+    AbandonedRow { written: usize },
 }
 
 #[derive(Clone, Debug, Serialize, Deserialize)]
@@ -146,6 +151,26 @@ impl Case {
                 steps.push(Step::Error { kind: 1064, msg });
                 (Cmd::Query { text: Blob::text("bigerr") }, Program { steps }, self.target)
             }
+            Assembly::AbandonedRow { written } => {
+                let n = (*written).max(1).min(2);
+                if self.target < n + 2 {
+                    return None;
+                }
+                let first = if n == 2 { (self.target as u128 * (*self.splits.first().unwrap_or(&500)).max(1) as u128 / 1001) as usize } else { self.target };
+                let sizes = if n == 2 { vec![first.max(1), self.target - first.max(1)] } else { vec![self.target] };
+                let mut cells_v = Vec::new();
+                for (i, enc) in sizes.iter().enumerate() {
+                    let len = payload_for_encoded(*enc)?;
+                    cells_v.push(Val::plain(Base::BigBytes { seed: self.seed.wrapping_add(i as u32), len }));
+                }
+                let mut rows = Vec::new();
+                for k in 0..self.pre_rows {
+                    rows.push(small_row(3, k));
+                }
+                rows.push(RowProg { cells: cells_v, form: RowForm::ColsOpen });
+                let prog = Program { steps: vec![Step::Set { cols: small_cols(3), rows, end: SetEnd::FinishError { kind: 1105, msg: b"gave up in the middle of a row".to_vec() } }] };
+                (Cmd::Query { text: Blob::text("abandon") }, prog, self.target)
+            }
             Assembly::ColName => {
                 // column definition payload: "def"(4) + schema(1) + table(1+1) + org_table(1) + name(lenenc) + org_name(1) + 0x0c(1) + 12 fixed
                 let fixed = 4 + 1 + 2 + 1 + 1 + 1 + 12;
@@ -209,7 +234,7 @@ impl Prop for C04 {
         "C04"
     }
     fn rule(&self) -> String {
-        "cases = one logical server message of a chosen size, realised by an assembly (text row of 1-4 cells whose encoded sizes sum to the target with cell boundaries before/at/after the packet limit; binary row; ERR message; column definition with a huge name), preceded/followed by ordinary rows and PINGs, optionally with short transport writes. Sizes: enumerated k*(2^24-1)+d for k in {1,2}, d in a window around 0, plus random sizes (small ones by the thousands). Oracle: independent framer over the raw output (consumed exactly; every fragment but the last of a long message is 0xFFFFFF bytes, the last shorter, possibly empty), reassembled messages decoded and compared with the values written. Non-trivial = message >= 2^24-1-8 bytes.".into()
+        "cases = one logical server message of a chosen size, realised by an assembly (text row of 1-4 cells whose encoded sizes sum to the target with cell boundaries before/at/after the packet limit; binary row; ERR message; column definition with a huge name; a text row abandoned with finish_error after its first 1-2 cells were written), preceded/followed by ordinary rows and PINGs, optionally with short transport writes. Sizes: enumerated k*(2^24-1)+d for k in {1,2}, d in a window around 0, plus random sizes (small ones by the thousands). Oracle: independent framer over the raw output (consumed exactly; every fragment but the last of a long message is 0xFFFFFF bytes, the last shorter, possibly empty), reassembled messages decoded and compared with the values written. Non-trivial = message >= 2^24-1-8 bytes.".into()
     }
     fn assumptions(&self) -> Vec<String> {
         vec!["messages beyond ~2*(2^24-1)+70000 bytes are not explored".into()]
@@ -228,7 +253,8 @@ impl Prop for C04 {
             2 => *g.pick(&[250usize, 251, 252, 253, 65_535, 65_536, 65_537, 65_538, 65_539, 65_540]) + g.usize_in(0, 40),
             _ => g.usize_in(U24 - 20, U24 + 20),
         };
-        let assembly = match g.below(5) {
+        let assembly = match g.below(6) {
+            5 => Assembly::AbandonedRow { written: g.usize_in(1, 2) },
             0 => Assembly::TextRow { cells: 1 },
             1 => Assembly::TextRow { cells: g.usize_in(2, 4) },
             2 => Assembly::BinRow { cells: g.usize_in(1, 4) },
@@ -245,7 +271,7 @@ impl Prop for C04 {
         };
         let ks: &[usize] = &[1, 2];
         let assemblies: Vec<Assembly> = match tier {
-            Tier::Quick => vec![Assembly::TextRow { cells: 1 }, Assembly::BinRow { cells: 2 }],
+            Tier::Quick => vec![Assembly::TextRow { cells: 1 }, Assembly::BinRow { cells: 2 }, Assembly::AbandonedRow { written: 1 }],
             Tier::Thorough => vec![
                 Assembly::TextRow { cells: 1 },
                 Assembly::TextRow { cells: 3 },
@@ -253,6 +279,8 @@ impl Prop for C04 {
                 Assembly::BinRow { cells: 4 },
                 Assembly::ErrMsg,
                 Assembly::ColName,
+                Assembly::AbandonedRow { written: 1 },
+                Assembly::AbandonedRow { written: 2 },
             ],
         };
         let mut i = 0u32;
@@ -287,16 +315,53 @@ impl Prop for C04 {
             }
         };
         ex.nontrivial = big_len >= U24 - 8;
-        ex.class(format!("assembly:{}", match case.assembly { Assembly::TextRow { .. } => "text-row", Assembly::BinRow { .. } => "bin-row", Assembly::ErrMsg => "err-msg", Assembly::ColName => "col-name" }));
+        ex.class(format!("assembly:{}", match case.assembly { Assembly::TextRow { .. } => "text-row", Assembly::BinRow { .. } => "bin-row", Assembly::ErrMsg => "err-msg", Assembly::ColName => "col-name", Assembly::AbandonedRow { .. } => "abandoned-row" }));
         if big_len >= U24 {
             ex.class(format!("fragments:{}", frame_count(big_len)));
         }
         if big_len % U24 == 0 {
             ex.class("exact-multiple(empty terminator)");
         }
+        let mut conv = conv;
+        if matches!(case.assembly, Assembly::AbandonedRow { .. }) {
+            conv.forget_on_refusal = true;
+        }
         let o = run_with(&conv, None, false);
         if let RunResult::Panic(p) = &o.result {
             ex.fail(format!("c04-panic|{}", panic_signature(p)), format!("run_on panicked: {}", o.result.brief()));
+            return ex;
+        }
+        if matches!(case.assembly, Assembly::AbandonedRow { .. }) {
+            // Either finish_error refuses (Err; the connection ends) or it abandons the row and
+            // reports the error.  In both cases every byte sent must belong to the conformant
+            // response: header, the complete rows, then ERR - never a message glued together from
+            // the abandoned row and something else.
+            let kinds: Vec<ReplyKind> = conv.cmds.iter().map(|sc| sc.cmd.reply_kind()).collect();
+            let d = decode_output(&o.out, &kinds);
+            let refused = o.calls.iter().any(|k| !k.ok);
+            ex.class(if refused { "abandoned-row:refused" } else { "abandoned-row:discarded" });
+            if refused {
+                if !o.result.is_err() {
+                    ex.fail("c04-abandoned-row-result", format!("finish_error failed but run_on returned {}", o.result.brief()));
+                }
+                // what was sent may stop early (even inside the abandoned row's first fragments),
+                // but what did arrive as complete messages must be conformant so far
+                if let Some(p) = &d.problem {
+                    if !d.truncated_only {
+                        ex.fail("c04-abandoned-row-garbage", format!("after a refused finish_error the bytes already sent are malformed: {}", p));
+                    }
+                }
+            } else {
+                if let Some(p) = &d.problem {
+                    ex.fail("c04-abandoned-row-garbage", format!("finish_error reported success, but the client cannot decode the response: {} (logical message sizes: {:?})", p, d.msgs.iter().map(|m| m.payload.len()).filter(|l| *l > 1000).collect::<Vec<_>>()));
+                    return ex;
+                }
+                // the reply must be: the complete rows, then the ERR the shim reported
+                match d.replies.get(1).map(|r| &r.units[..]) {
+                    Some([Unit::Set { rows, end_err: Some(e), .. }]) if rows.len() == case.pre_rows && e.code == 1105 => {}
+                    other => ex.fail("c04-abandoned-row-reply", format!("expected the {} complete rows followed by ERR 1105, got {:?}", case.pre_rows, other.map(|u| u.iter().map(|x| x.brief()).collect::<Vec<_>>()))),
+                }
+            }
             return ex;
         }
         if !o.result.is_ok() {
